@@ -72,7 +72,7 @@ def run_cut(ident, tier, seed, res):
                 elif path.kind == 'ret':
                     res['refuted'] += 1
                     if eng.check3() == 'sat':
-                        res['cex'].append({'kind': 'construct', 'payload': d.payload_from_model(eng.solver.model()).hex(),
+                        res['cex'].append({'kind': 'construct', 'payload': d.payload_from_model(eng.model()).hex(),
                                            'checks': ['overrun'], 'ident': ident, 'spec': st, 'cut': cut, 'need': d0.need,
                                            'dedup': f"{ident}:{st}:{cut}"})
                 elif path.kind == 'abort':
@@ -86,7 +86,7 @@ def run_cut(ident, tier, seed, res):
                 eng2 = sym.Engine(max_paths=1)
                 for path in eng2.explore(fn):
                     if eng2.check3() == 'sat':
-                        res['witnesses'].append({'kind': 'construct', 'payload': d.payload_from_model(eng2.solver.model()).hex(),
+                        res['witnesses'].append({'kind': 'construct', 'payload': d.payload_from_model(eng2.model()).hex(),
                                                  'checks': ['overrun', 'total']})
                     break
         if not res['samples']:
@@ -124,7 +124,7 @@ def run_free(ident, tier, seed, res):
                     if lay == 'overrun':
                         res['refuted'] += 1
                         if eng.check3() == 'sat':
-                            pl = bytes(eng.solver.model().eval(sym.byte_term(e), model_completion=True).as_long() for e in H['p'].e)
+                            pl = bytes(eng.model().eval(sym.byte_term(e), model_completion=True).as_long() for e in H['p'].e)
                             res['cex'].append({'kind': 'construct', 'payload': pl.hex(), 'checks': ['overrun'], 'ident': ident,
                                                'dedup': f"free:{ident}:{L}"})
                     elif isinstance(lay, Exception):
@@ -175,7 +175,7 @@ def run_hist(ids, tier, seed, res):
                 elif path.kind == 'ret':
                     res['refuted'] += 1
                     if eng.check3() == 'sat':
-                        m = eng.solver.model()
+                        m = eng.model()
                         res['cex'].append({'kind': 'construct', 'history': [dfull.payload_from_model(m).hex()], 'payload': dcut.payload_from_model(m).hex(),
                                            'checks': ['overrun'], 'ident': ident, 'why': f"{ident}: truncated to {cut} bytes accepted after a complete message of the same type",
                                            'dedup': f"hist:{ident}"})
